@@ -34,7 +34,7 @@ BUDGET = {"quick": (600, 150), "thorough": (20000, 2400)}
 FAULTS = ["upload_error", "upload_connection_lost", "crash_sql_boundary", "clean_restart", "srv_replay_first_message"]
 PROBES = ["unconfirmed_upload_reoffered", "confirmed_not_reoffered", "count_request_upload", "prekey_consumed",
           "replay_refused", "crash_during_generation", "crash_during_confirmation", "signature_verified",
-          "two_uploads_outstanding", "delayed_upload_result"]
+          "two_uploads_outstanding", "delayed_upload_result", "upload_result_lost_with_connection"]
 SHRINK = ["events"]
 PA, PP = "4915160000001", "4915160000002"
 JA, JP = PA + "@s.whatsapp.net", PP + "@s.whatsapp.net"
@@ -133,7 +133,8 @@ class W(convo.World):
         sk = node.child("skey")
         up = {"ids": ids, "mode": self.next_upload_mode, "identity": node.child("identity").data,
               "registration": node.child("registration").data,
-              "skey": (sk.child("id").data, sk.child("value").data, sk.child("signature").data), "confirmed": None}
+              "skey": (sk.child("id").data, sk.child("value").data, sk.child("signature").data), "confirmed": None,
+              "cid": cid, "iq_id": node["id"]}
         self.uploads.append(up)
         self.check_upload(up)
         mode = self.next_upload_mode
@@ -256,6 +257,11 @@ class W(convo.World):
             elif sent:
                 self.violate("store/confirmation-partial", "%s: %d of %d keys of one confirmed upload are flagged uploaded%s"
                              % (when, len(sent), len(lids), " (after a crash during confirmation)" if self.crashed_since_limbo else ""))
+            elif not any(d == "out" and c == limbo["cid"] and n.tag == "iq" and n["id"] == limbo["iq_id"] and n["type"] == "result"
+                         for d, c, n in self.server.log):
+                # the result was queued but the connection ended before it was delivered (e.g. the client's own reconnect
+                # after an earlier upload result): the keys legitimately stay pending
+                self.probe("upload_result_lost_with_connection")
             elif not self.crashed_since_limbo and self.a.alive and lids and self.a.cid is not None:
                 # the result was delivered to a live client and processed, but the keys are still pending
                 self.violate("store/confirmed-upload-still-pending", "%s: the server confirmed an upload of %d keys and the "
